@@ -336,6 +336,114 @@ Proof.
   rewrite (cache_tracks pre [] [] (fun _ => eq_refl)). reflexivity.
 Qed.
 
+(* ---- finish(): a confirmation applies to the version it is about -------------------- *)
+Lemma confirmation_applies_spec cached polled :
+  confirmation_applies cached polled = true -> polled = [] \/ cached = polled.
+Proof.
+  unfold confirmation_applies. destruct polled as [|x r]; [left; reflexivity|].
+  intros H. right. apply name_eqb_eq. exact H.
+Qed.
+
+(* the entry is marked confirmed by this answer only if the answer is positive and is
+   about the version the entry holds: never an entry that replaced that version - hashed
+   or not yet hashed *)
+Theorem finish_confirms_only_the_version_asked_about :
+  forall code cached polled was_done can_delete disk,
+  fo_done (finish_step code cached polled was_done can_delete disk) = true ->
+  was_done = true \/
+  ((code = POLL_PASSED \/ code = POLL_WAITING) /\ (polled = [] \/ cached = polled)).
+Proof.
+  intros code cached polled was_done can_delete disk. unfold finish_step.
+  destruct ((code =? POLL_WAITING) || (code =? POLL_PASSED)) eqn:Ec.
+  - destruct (confirmation_applies cached polled) eqn:Ea; cbn [fo_done]; intros H.
+    + right. split; [|apply confirmation_applies_spec; exact Ea].
+      apply Bool.orb_true_iff in Ec. destruct Ec as [E|E]; apply Z.eqb_eq in E; auto.
+    + left. exact H.
+  - cbn [fo_done]. intros H. left. exact H.
+Qed.
+
+(* the source file is removed by this answer only if the answer is positive, about the
+   version the entry holds, the tag says delete, and the file on disk is that version *)
+Theorem finish_removes_only_the_confirmed_version :
+  forall code cached polled was_done can_delete disk,
+  fo_removed (finish_step code cached polled was_done can_delete disk) = true ->
+  (code = POLL_PASSED \/ code = POLL_WAITING) /\ (polled = [] \/ cached = polled) /\
+  can_delete = true /\ disk = 0.
+Proof.
+  intros code cached polled was_done can_delete disk. unfold finish_step.
+  destruct ((code =? POLL_WAITING) || (code =? POLL_PASSED)) eqn:Ec; [|cbn [fo_removed]; discriminate].
+  destruct (confirmation_applies cached polled) eqn:Ea; cbn [fo_removed]; [|discriminate].
+  intros H. apply Bool.andb_true_iff in H. destruct H as [H Hd]. apply Bool.andb_true_iff in H. destruct H as [_ Hc].
+  split; [apply Bool.orb_true_iff in Ec; destruct Ec as [E|E]; apply Z.eqb_eq in E; auto|].
+  split; [apply confirmation_applies_spec; exact Ea|]. split; [exact Hc|apply Z.eqb_eq; exact Hd].
+Qed.
+
+(* a negative answer leaves entry and file alone and asks for another attempt *)
+Theorem finish_negative_retries : forall code cached polled was_done can_delete disk,
+  code <> POLL_PASSED -> code <> POLL_WAITING ->
+  finish_step code cached polled was_done can_delete disk = mkfo was_done false true.
+Proof.
+  intros code cached polled was_done can_delete disk H1 H2. unfold finish_step.
+  destruct (code =? POLL_WAITING) eqn:E1; [apply Z.eqb_eq in E1; contradiction|].
+  destruct (code =? POLL_PASSED) eqn:E2; [apply Z.eqb_eq in E2; contradiction|]. reflexivity.
+Qed.
+
+Example finish_unhashed_replacement_not_confirmed :
+  finish_step POLL_PASSED [] [1; 2] false true 0 = mkfo false false false.
+Proof. reflexivity. Qed.
+
+(* ---- the cache clean-up ------------------------------------------------------- *)
+Lemma sc_present_eqb world m n : name_eqb m n = true -> sc_present world m = sc_present world n.
+Proof. intros E. apply name_eqb_eq in E. subst. reflexivity. Qed.
+
+Lemma sc_get_clean_present world c n :
+  sc_present world n = true -> sc_get (sc_clean world c) n = sc_get c n.
+Proof.
+  intros Hp. induction c as [|[m v] r IH]; [reflexivity|].
+  cbn [sc_clean filter fst]. destruct (sc_present world m) eqn:Hm.
+  - cbn [sc_get]. destruct (name_eqb m n) eqn:E; [reflexivity|]. exact IH.
+  - cbn [sc_get]. destruct (name_eqb m n) eqn:E.
+    + rewrite (sc_present_eqb world m n E) in Hm. congruence.
+    + exact IH.
+Qed.
+
+Lemma sc_get_clean_absent world c n :
+  sc_present world n = false -> sc_get (sc_clean world c) n = None.
+Proof.
+  intros Hp. induction c as [|[m v] r IH]; [reflexivity|].
+  cbn [sc_clean filter fst]. destruct (sc_present world m) eqn:Hm; [|exact IH].
+  cbn [sc_get]. destruct (name_eqb m n) eqn:E; [|exact IH].
+  rewrite (sc_present_eqb world m n E) in Hm. congruence.
+Qed.
+
+Lemma in_world_present world d : In d world -> sc_present world (df_name d) = true.
+Proof.
+  intros Hin. unfold sc_present. apply existsb_exists. exists d. split; [exact Hin|apply name_eqb_refl].
+Qed.
+
+(* the clean-up is invisible to the scan it precedes: what that scan returns is the
+   same with and without it - in particular a file that is still there, unchanged,
+   confirmed or not, is not handed to the sender again because the interval passed *)
+Theorem clean_invisible_to_scan : forall clean cfg now world c,
+  fst (scan_once_c clean cfg now world c) = fst (scan_once cfg now world c).
+Proof.
+  intros [|] cfg now world c; [|reflexivity].
+  unfold scan_once_c, scan_once. cbn [fst]. apply filter_ext_in. intros d Hin.
+  unfold scan_file. rewrite (sc_get_clean_present world c (df_name d) (in_world_present world d Hin)).
+  reflexivity.
+Qed.
+
+(* what the clean-up changes: after it the cache knows a name iff it knew it before
+   and the file is there - a name whose file went away is forgotten, so that a file
+   created anew under it is hashed and sent whatever its size and time *)
+Theorem clean_forgets_exactly_the_absent : forall world c n,
+  sc_get (sc_clean world c) n = if sc_present world n then sc_get c n else None.
+Proof.
+  intros world c n. destruct (sc_present world n) eqn:Hp.
+  - apply sc_get_clean_present; exact Hp.
+  - apply sc_get_clean_absent; exact Hp.
+Qed.
+
 (* a file returned by one scan and unchanged at the next one is not returned again *)
 Theorem returned_then_unchanged_skipped : forall pre cfg now world cfg' now' world' post d,
   In d (nth (length pre) (scan_run (pre ++ (cfg, now, world) :: (cfg', now', world') :: post) []) []) ->
